@@ -23,7 +23,7 @@ CLAUSES = ["every feature of the relevance dict exactly once (permutation, no du
            "ranks are 1..n in list order"]
 STEMS = ["f", "feature", "user_", "x", "item-", "ctx AND dev", "é", "col", "A", "zz_", "q.", "0", "label", "ts "]
 DEN = 64
-HEADER = ("From Coq Require Import List QArith ZArith NArith.\nFrom Outrank Require Import Rank.ThreeMR.\n"
+HEADER = ("From Coq Require Import List QArith ZArith NArith.\nFrom Outrank Require Import Rank.QMedian Rank.ThreeMR.\n"
           "Import ListNotations.\nOpen Scope Q_scope.")
 
 
@@ -398,7 +398,7 @@ def check(run, replay):
     elif replay is not None:
         cases = [replay["case"]]
     else:
-        pipe_cases = [gen_pipeline_case(run.rng) for _ in range(14 if run.tier == "quick" else 150)]
+        pipe_cases = [dict(gen_pipeline_case(run.rng), hashseed=hashseed) for _ in range(14 if run.tier == "quick" else 150)]
         cases = load_corpus("C17")
         n = 260 if run.tier == "quick" else 2500
         for i in range(n):
@@ -454,7 +454,7 @@ def check(run, replay):
     if differs_but_unique:
         run.notes.append("harness cross-check: %d accepted data frames differ from the model although the ranking is forced" % differs_but_unique)
     # the caller
-    pev = evaluate_pipeline(pipe_cases, hashseed)
+    pev = evaluate_pipeline(pipe_cases, pipe_cases[0].get("hashseed", hashseed) if pipe_cases else hashseed)
     run.oblige("correspondence:task_ranking builds the dictionaries of build_inst and writes a valid 3mr_ranks.tsv", True)
     pstat = {}
     for c, e in zip(pipe_cases, pev):
